@@ -174,6 +174,40 @@ pub fn cases(_tier: &str, seed: u64) -> Vec<Case> {
             v.push(c);
         }
     }
+    // every TYPE word on a received record, without RDATA (every type may come that way: RFC 2136 prerequisites and
+    // deletions) and, for the types the library has no layout for, with opaque RDATA: the record is accepted, reports
+    // the type its code denotes, and so does an owned copy of it, which also writes that code back
+    for w in 0..=65535u16 {
+        let t = TYPE::from(w);
+        let shapes: &[&[u8]] = if matches!(t, TYPE::Unknown(_)) || w == 10 { &[&[], &[1, 2, 3]] } else { &[&[]] };
+        for rd in shapes {
+            let mut wire = vec![0u8, 1, 0x80, 0, 0, 0, 0, 1, 0, 0, 0, 0, 1, b'a', 0];
+            wire.extend_from_slice(&w.to_be_bytes());
+            wire.extend_from_slice(&[0, 1, 0, 0, 0, 9, 0, rd.len() as u8]);
+            wire.extend_from_slice(rd);
+            let parsed = Packet::parse(&wire);
+            let out = match &parsed { Ok(p) => format!("ok {}", crate::text::packet(p)), Err(_) => "err".to_string() };
+            let mut c = Case::new(format!("parse {}", crate::text::hex(&wire)), out).tag("record-type");
+            if w > 600 && w % 7 != 0 && !(32700..32900).contains(&w) { c.proj = Proj::None; c.op = String::new(); }
+            match &parsed {
+                Err(_) => { c = c.fail("type-rejected", format!("a record with TYPE word {} and {} bytes of RDATA is rejected", w, rd.len())); }
+                Ok(p) => match p.answers.first() {
+                    None => { c = c.fail("type-rejected", format!("a record with TYPE word {} is dropped", w)); }
+                    Some(r) => {
+                        let owned = r.clone().into_owned();
+                        let mut q = Packet::new_reply(1);
+                        q.answers.push(owned.clone());
+                        let back = q.build_bytes_vec().ok();
+                        if r.rdata.type_code() != t { c = c.fail("type-code-faithful", format!("a received record with TYPE word {} reports {:?}", w, r.rdata.type_code())); }
+                        else if owned.rdata.type_code() != t { c = c.fail("type-code-faithful", format!("the owned copy of a received record with TYPE word {} reports {:?}", w, owned.rdata.type_code())); }
+                        else if back.as_ref().map(|b| b.len() > 16 && b[15..17] == w.to_be_bytes()) != Some(true) { c = c.fail("type-code-faithful", format!("the owned copy of a received record with TYPE word {} is written under another code", w)); }
+                        else if r.match_qtype(QTYPE::ANY) != true || owned.match_qtype(QTYPE::TYPE(t)) != true { c = c.fail("match-qtype", format!("a received record of type {} does not match its own type / ANY", w)); }
+                    }
+                },
+            }
+            v.push(c);
+        }
+    }
     // every QTYPE word and every QCLASS word on a received question: a supported code is accepted and reported as it
     // is (the top bit of the class word being the mDNS unicast-response bit), an unsupported one is an error - not an
     // alias, and not a question of an `Unknown` type
